@@ -160,6 +160,11 @@ def replay_protocol(vc, unit):
     elif clause.startswith("C04_C05_C06_timeout_delay"):
         task = {"op": "func", "module": "contracts.protocol_native", "func": "replay_timer_delay",
                 "kwargs": {"kind": kind}}
+    elif clause.startswith("C10_transmission_uses_a_transport_of_the_running_loop"):
+        task = {"op": "func", "module": "contracts.protocol_native", "func": "replay_stale_loop", "kwargs": {"kind": kind}}
+    elif uname.endswith(".__init__"):
+        task = {"op": "func", "module": "contracts.protocol_native", "func": "replay_init",
+                "kwargs": {"kind": kind, "timeout": w.get("timeout", 1), "retries": w.get("retries", 3), "check": clause}}
     elif uname.startswith("binding:"):
         task = {"op": "func", "module": "contracts.protocol_native", "func": "replay_binding",
                 "kwargs": {"cls": w.get("cls", uname.split(":")[1]), "comm_addr": w.get("comm_addr", 0xf7),
